@@ -484,3 +484,117 @@ func (p *Prog) isFreshValue(fn *ssa.Function, v ssa.Value, depth int) bool {
 	}
 	return false
 }
+
+// freshStdlib: stdlib functions whose result is a newly allocated container.
+var freshStdlib = map[string]bool{"slices.Collect": true, "slices.Clone": true, "maps.Clone": true, "slices.Sorted": true, "strings.Split": true, "strings.Fields": true}
+
+// R-INPUT-RO: the queried value and the variables are never written.
+var ruleInputRO = &Rule{
+	Name: "R-INPUT-RO", NeedSSA: true,
+	Doc: "no store through, map update of, delete/clear/append/in-place sort on memory that derives from the queried value, a variable value or the variables map, in any function reachable from the entry points: containers the executor writes are its own fresh allocations (result lists, the keyvalue triple, the auto-wrap slice)",
+	Run: func(p *Prog) *RuleOut {
+		out := newOut("R-INPUT-RO")
+		reach := p.reachFrom(entryRootsFn(p))
+		n, nsus := 0, 0
+		ord := ordinals{}
+		isItemish := func(t types.Type) bool {
+			switch u := t.Underlying().(type) {
+			case *types.Interface:
+				return u.NumMethods() == 0
+			case *types.Slice:
+				return types.IsInterface(u.Elem())
+			case *types.Map:
+				return types.IsInterface(u.Elem())
+			}
+			return false
+		}
+		for _, fn := range moduleFuncs(reach.Set) {
+			if fnPkgPath(fn) != pkgExec && fnPkgPath(fn) != pkgTypes {
+				continue
+			}
+			for _, w := range writesOf(fn) {
+				// only writes into containers / through pointers that can alias the input
+				switch w.Kind {
+				case "store":
+					if _, ok := w.Base.(*ssa.IndexAddr); !ok {
+						continue // field and local stores are judged by R-STATE / R-IMMUT-AST
+					}
+				case "send":
+					continue
+				}
+				n++
+				pv := p.provenance(fn, w.Base)
+				bad := ""
+				for _, o := range pv.Origins {
+					switch o.Kind {
+					case "param", "freevar":
+						if isItemish(o.Val.Type()) {
+							bad = "parameter " + o.Val.Name()
+						}
+					case "call":
+						if c, ok := o.Val.(*ssa.Call); ok {
+							q := calleeQualified(&c.Call)
+							if freshStdlib[q] {
+								continue
+							}
+							if sc := c.Call.StaticCallee(); sc != nil && inModule(sc) && isItemish(c.Type()) {
+								// a module function returning a container: fresh only if it allocates
+								if !p.isFreshValue(fn, c, 0) && !returnsFreshContainer(sc) {
+									bad = "result of " + fnName(sc)
+								}
+							}
+						}
+					}
+				}
+				for _, f := range pv.Fields {
+					if f.Owner == p.A.Executor && (f.Field == p.A.VarsField || f.Field.Name() == "root" || f.Field.Name() == "current") {
+						bad = "Executor." + f.Field.Name()
+					}
+				}
+				if w.Kind == "append" && bad != "" {
+					// append(x, …) with x an input slice may write into its spare capacity
+				}
+				if bad == "" {
+					continue
+				}
+				nsus++
+				key := fmt.Sprintf("%s: %s on caller-owned data #%d", fnName(fn), w.Kind, ord.next(fnName(fn)))
+				out.viol(key, p.pos(w.Instr.Pos()), fnName(fn), "memory derived from "+bad+" is modified: the queried value or the variables would change under the caller's feet", reach.path(p, fn)...)
+			}
+		}
+		out.Counts["container_writes_examined"] = n
+		out.Floors["container_writes_examined"] = 20
+		out.Counts["writes_into_caller_data"] = nsus
+		return out
+	},
+}
+
+// returnsFreshContainer: every return of fn is a make/alloc/composite or the
+// result of a fresh stdlib allocator, or nil.
+func returnsFreshContainer(fn *ssa.Function) bool {
+	if fn.Blocks == nil {
+		return false
+	}
+	for _, r := range returnsOf(fn) {
+		if len(r.Results) == 0 {
+			return false
+		}
+		v := stripConv(r.Results[0])
+		switch x := v.(type) {
+		case *ssa.MakeSlice, *ssa.MakeMap, *ssa.Alloc:
+		case *ssa.Const:
+			if x.Value != nil {
+				return false
+			}
+		case *ssa.Call:
+			if !freshStdlib[calleeQualified(&x.Call)] {
+				return false
+			}
+		default:
+			return false
+		}
+	}
+	return true
+}
+
+func init() { register(ruleInputRO) }
